@@ -186,67 +186,85 @@ def run_verus(prop, tier, seed=0, repo=None):
         if seed and tier == 'thorough':
             cmd += ['--smt-option', 'smt.random_seed=%d' % (seed % 1000)]
         cmds.append('verus unit_%s.rs --triggers-mode silent --multiple-errors 30 --output-json --time %s' % (u.NAME, ' '.join(extra)))
-        rc, out, err, wall = run(cmd, cwd=scratch, timeout=900)
-        if os.environ.get('VERIF_DEBUG'):
-            open(os.path.join(VERIF, 'last_verus_%s.err' % u.NAME), 'w').write(err)
-        try:
-            js = json.loads(out[out.index('{'):])
-        except Exception:
-            vr.undecided.append('unit %s: verus produced no JSON (rc=%s): %s' % (u.NAME, rc, (err or out)[-600:]))
-            continue
-        res = js.get('verification-results', {})
-        glines = text.split('\n')
-        errors = parse_errors(err, path)
-        hard = [e for e in errors if e['code'] or 'rlimit' in e['text'].lower() or 'resource limit' in e['text'].lower()
-                or 'not supported' in e['kind'] or 'unsupported' in e['kind'].lower()]
-        if res.get('encountered-vir-error') or hard or (rc != 0 and not errors):
-            why = (hard[0]['text'] if hard else err[-800:])
-            vr.undecided.append('unit %s: the generated text was rejected or a resource limit was hit (not a verdict): %s' % (u.NAME, why[:900]))
-            continue
-        # ---- function-level timing and success ----
-        fb = []
-        try:
-            for mt in js['times-ms']['smt']['smt-run-module-times']:
-                fb += mt.get('function-breakdown', [])
-        except Exception:
-            pass
-        vr.solver_s += sum(f.get('time-micros', 0) for f in fb) / 1e6
-        ftime = {f['function'].split('::')[-1]: f for f in fb}
-        # ---- map errors to obligations ----
-        failed = {}   # obligation id -> (detail, props)
+        # Unmasking loop: Verus assumes an asserted fact after checking it, so a failed obligation hides the obligations
+        # it implies later in the same function.  Failed `assert(..) /*OB:..*/` statements are therefore blanked out and
+        # the unit is checked again (at most 4 rounds); failures of all rounds are reported.
+        failed = {}   # obligation label -> (detail, props)
         canary_failed = False
+        rejected = None
+        res, fb = {}, []
+        for rnd in range(4):
+            open(path, 'w').write(text)
+            rc, out, err, wall = run(cmd, cwd=scratch, timeout=900)
+            if os.environ.get('VERIF_DEBUG'):
+                open(os.path.join(VERIF, 'last_verus_%s.err' % u.NAME), 'a' if rnd else 'w').write('=== round %d ===\n' % rnd + err)
+            try:
+                js = json.loads(out[out.index('{'):])
+            except Exception:
+                rejected = 'verus produced no JSON (rc=%s): %s' % (rc, (err or out)[-600:])
+                break
+            res = js.get('verification-results', {})
+            glines = text.split('\n')
+            errors = parse_errors(err, path)
+            hard = [e for e in errors if e['code'] or 'rlimit' in e['text'].lower() or 'resource limit' in e['text'].lower()
+                    or 'not supported' in e['kind'] or 'unsupported' in e['kind'].lower()]
+            if res.get('encountered-vir-error') or hard or (rc != 0 and not errors) or 'verified' not in res:
+                rejected = 'the generated text was rejected or a resource limit was hit (not a verdict): %s' % ((hard[0]['text'] if hard else err[-800:])[:900])
+                break
+            if rnd == 0:
+                try:
+                    for mt in js['times-ms']['smt']['smt-run-module-times']:
+                        fb += mt.get('function-breakdown', [])
+                except Exception:
+                    pass
 
-        def fn_at(line):
-            for name, a, b, props in g.fn_spans:
-                if a <= line <= b:
-                    return name, props
-            return None, None
+            def fn_at(line):
+                for name, a, b, props in g.fn_spans:
+                    if a <= line <= b:
+                        return name, props
+                return None, None
 
-        for e in errors:
-            cand = e['lines'] + secondary_lines(e['text'])
-            ob = None
-            for ln in cand:
-                if 1 <= ln <= len(glines):
-                    m = RE_OB.search(glines[ln - 1])
-                    if m:
-                        ob = (m.group(1), [p for p in m.group(2).split(',') if p])
-                        break
-            prim_line = e['lines'][0] if e['lines'] else (cand[0] if cand else 0)
-            fname, fprops = fn_at(prim_line)
-            if ob is None:
-                src_line = glines[prim_line - 1].strip() if 1 <= prim_line <= len(glines) else ''
-                if 'canary' in src_line or (fname == 'canary'):
+            new_assert_lines = []
+            for e in errors:
+                cand = e['lines'] + secondary_lines(e['text'])
+                ob, ob_line = None, None
+                for ln in cand:
+                    if 1 <= ln <= len(glines):
+                        m = RE_OB.search(glines[ln - 1])
+                        if m:
+                            ob = (m.group(1), [p for p in m.group(2).split(',') if p])
+                            ob_line = ln
+                            break
+                prim_line = e['lines'][0] if e['lines'] else (cand[0] if cand else 0)
+                fname, fprops = fn_at(prim_line)
+                if ob is None:
+                    src_line = glines[prim_line - 1].strip() if 1 <= prim_line <= len(glines) else ''
+                    if 'canary' in src_line or (fname == 'canary'):
+                        canary_failed = True
+                        continue
+                    kind = re.sub(r'[^a-z]+', '-', e['kind'].lower()).strip('-')[:40]
+                    callee = next((p for p in PRIMS if '.%s(' % p in src_line or ' %s(' % p in src_line), None)
+                    label = '%s.%s@%s' % (fname or 'unit', ('pre.' + callee) if (callee and 'precondition' in e['kind']) else kind, re.sub(r'\s+', ' ', src_line)[:70])
+                    props = u.props_for(fname, callee if 'precondition' in e['kind'] else kind) if hasattr(u, 'props_for') else (fprops or u.PROPS)
+                    ob = (label, props)
+                elif ob[0] == 'canary':
                     canary_failed = True
                     continue
-                kind = re.sub(r'[^a-z]+', '-', e['kind'].lower()).strip('-')[:40]
-                callee = next((p for p in PRIMS if '.%s(' % p in src_line or ' %s(' % p in src_line), None)
-                label = '%s.%s@%s' % (fname or 'unit', ('pre.' + callee) if (callee and 'precondition' in e['kind']) else kind, re.sub(r'\s+', ' ', src_line)[:70])
-                props = u.props_for(fname, callee if 'precondition' in e['kind'] else kind) if hasattr(u, 'props_for') else (fprops or u.PROPS)
-                ob = (label, props)
-            elif ob[0] == 'canary':
-                canary_failed = True
-                continue
-            failed[ob[0]] = (e['text'][:1500], ob[1] or (fprops or u.PROPS))
+                if ob[0] not in failed:
+                    failed[ob[0]] = (e['text'][:1500], ob[1] or (fprops or u.PROPS))
+                    if ob_line and re.search(r'\bassert\(', glines[ob_line - 1]) and 'assert(false)' not in glines[ob_line - 1]:
+                        new_assert_lines.append(ob_line)
+            if not new_assert_lines:
+                break
+            for ln in new_assert_lines:
+                glines[ln - 1] = re.sub(r'assert\(.*\)\s*/\*OB:', '/* unmasked in a later round */ /*XB:', glines[ln - 1])
+            text = '\n'.join(glines)
+        if rejected:
+            vr.undecided.append('unit %s: %s' % (u.NAME, rejected))
+            continue
+        glines = g.text().split('\n')
+        vr.solver_s += sum(f.get('time-micros', 0) for f in fb) / 1e6
+        ftime = {f['function'].split('::')[-1]: f for f in fb}
         if not canary_failed:
             vr.undecided.append('unit %s: vacuity guard: the assert(false) canary did not fail (contradictory prelude or empty run)' % u.NAME)
             continue
